@@ -1,1 +1,3 @@
 pub mod isa;
+pub mod asm;
+pub mod link;
